@@ -90,6 +90,7 @@ func (probeRouter) Routes() []caddy.AdminRoute {
 type prop struct {
 	dir    string
 	certs  []*x509.Certificate
+	privs  []ed25519.PrivateKey
 	b64    []string
 	open   http.Handler // handler without any enforcement, used to read the config back
 	base   string       // canonical JSON of the base config as GET /config/ returns it
@@ -152,6 +153,7 @@ func (p *prop) init() {
 			panic(err)
 		}
 		p.certs = append(p.certs, c)
+		p.privs = append(p.privs, priv)
 		p.b64 = append(p.b64, base64.StdEncoding.EncodeToString(der))
 	}
 	// routes contributed by the real admin.api modules linked into this binary (through the
@@ -1458,6 +1460,9 @@ func (p *prop) Run(line string) core.Outcome {
 	p.init()
 	if f := strings.Fields(line); len(f) > 0 && f[0] == "cf" {
 		return p.runCf(f)
+	}
+	if f := strings.Fields(line); len(f) > 0 && f[0] == "hist" {
+		return p.runHist(line, f)
 	}
 	if f := strings.Fields(line); len(f) > 0 && f[0] == "ip" {
 		return p.runIP(f)
